@@ -121,6 +121,25 @@ def make_bases(R):
                6: ee + bytes([0, 17, 0xdd]) + bytes([0, 255, 0xcc]) * 300}    # over-long run followed by 76 KB more
     dg.c03_write_lkcd(P("lkcd-rle-edge"), [0, 1, 2, 3, 4, 5, 6], compress=1, streams=streams)
     special("lkcd-rle-edge", "lkcd", P("lkcd-rle-edge"), "write_lkcd(compress=RLE, hand-made streams at the page-size boundary)")
+    # LKCD dumps whose header announces 4 KiB pages while the page data are compressed 64 KiB pages (dp_size between the two
+    # sizes): unreadable as they are, readable once the application has set arch.page_size (the harness script does)
+    import random as _random, zlib as _zlib
+    prng = _random.Random(R.rng.getrandbits(48))
+    for comp, nm in ((1, "rle"), (2, "gzip")):
+        streams = {}
+        for f in (0, 1, 2):
+            nlit = prng.choice([0x7000, 0x8000, 0x1001, 0xff00])
+            lit = bytes(prng.randint(1, 255) for _ in range(nlit))
+            rest = 65536 - nlit
+            if comp == 1:
+                streams[f] = lit + bytes([0, 255, 0xee]) * (rest // 255) + (bytes([0, rest % 255, 0xdd]) if rest % 255 else b"")
+            else:
+                streams[f] = _zlib.compress(lit + bytes(rest), 1)
+        info = dg.c03_write_lkcd(P("lkcd-ps64k-" + nm), [0, 1, 2], ps=65536, compress=comp, streams=streams, data_offset=65536)
+        with open(P("lkcd-ps64k-" + nm), "r+b") as fh:
+            fh.seek(20); fh.write((4096).to_bytes(4, "little"))
+        add("lkcd-ps64k-" + nm, "lkcd", [P("lkcd-ps64k-" + nm)], [info],
+            "write_lkcd(ps=65536, compress=%d, streams of %s bytes) with dh_page_size patched to 4096" % (comp, [len(streams[f]) for f in (0, 1, 2)]))
     # ---- file sets that do not belong together (no field table)
     def fileset(name, paths, gen):
         B.append(Base(name, "fileset", paths, [dict(fields=[], bounds=[], size=os.path.getsize(q)) for q in paths], gen))
@@ -872,4 +891,6 @@ def run(R):
     return "proof", cov, ["PARTIAL: memory safety / termination outside the modelled functions is enumerated and fuzzed under sanitizers, not proved",
                           "allocations above 256 MiB are refused (ASan max_allocation_size_mb), i.e. treated as allocation failures, not attempted",
                           "wall-clock bound %d ms per input stands for 'time proportional to the input' (inputs are < 10 MiB)" % TMO_MS,
-                          "models: rd32/rd/EOF behaviour and 32-bit field ranges are parameters (hypotheses of the theorems)"]
+                          "models: rd32/rd/EOF behaviour and 32-bit field ranges are parameters (hypotheses of the theorems)",
+                          "implementation-only (no model): the page-size history at the end of the harness script (cache.size 8, arch.page_size doubled, x16, "
+                          "halved, restored, reads after each), the legacy-lowcore s390x bases and the exhaustive pair corruption of small descriptors"]
